@@ -68,6 +68,8 @@ type State struct {
 	panicVal string            // value of the panic in flight ("" = none)
 	rangeKey, rangeKeySort string // key of the innermost map-range iteration (ghost tagging of abstract calls)
 	rangeOrd int
+	iterHead *State // state at the head of the current loop iteration (for prev())
+	loopExit map[int]*State // state in which loop N was left through its guard (for atexit())
 }
 
 func (s *State) clone() *State {
@@ -98,6 +100,12 @@ func (s *State) clone() *State {
 	}
 	n.pc = append([]string(nil), s.pc...)
 	n.defers = append([]*ast.DeferStmt(nil), s.defers...)
+	if s.loopExit != nil {
+		n.loopExit = make(map[int]*State, len(s.loopExit))
+		for k, v := range s.loopExit {
+			n.loopExit[k] = v
+		}
+	}
 	n.locks = make(map[string]string, len(s.locks))
 	for k, v := range s.locks {
 		n.locks[k] = v
